@@ -4,7 +4,9 @@ from props.common import generic_replay
 
 PROP = "C15"
 RULE = ("spec/JsonAppendBuf.tla: the buffer discipline (enter / write in place or grow / rewrite / rollback / leave) model-checked for every "
-        "operation sequence up to the bound, and the configuration lattice prefix length {0,1,7,8,9,31} x spare capacity {0, n-1, n, n+1, big} x 8 "
+        "operation sequence up to the bound (Reserve: room made at once, as encodeBytes does, with the deviation of a capacity counted from the "
+        "start of the buffer as witness), and the configuration lattice prefix length {0,1,7,8,9,31} and, for long texts (7..4097 bytes: plain, escaped, "
+        "base64, member names, raw, ,string), prefixes relative to the text's size {n/4, n, n+n/4, n+n/4+2, n+n/2, 2n} x spare capacity {0, n-1, n, n+1, big} x 8 "
         "AppendFlags subsets; spec/JsonTypes.tla shapes: every boundary value (values that make the encoder fail in the middle included) appended "
         "into a window of a guarded array for every configuration; AppendEscape / AppendUnescape on the string values")
 ASSUME = ["n is measured per value and flag set from Append(nil, v, flags)", "deeper shapes contribute a seeded third of their values"]
@@ -14,6 +16,10 @@ def extra(ck, vec):
     mc = vlib.must_hold(vlib.tlc("JsonAppendBuf", "MC_JsonAppendBuf.cfg", workers=8, defines={"MaxOps": 8 if ck.tier == "thorough" else 6}),
                         "JsonAppendBuf invariants")
     ck.add_mc(mc, "MC_JsonAppendBuf")
+    w = vlib.tlc("JsonAppendBuf", "MC_JsonAppendBufFromStart.cfg", workers=4, expect_violation=True)
+    if w.ok or w.violation not in ("NoPanic", "RoomAfterReserve"):
+        raise vlib.Infra("JsonAppendBuf with a reservation counted from the start of the buffer should violate NoPanic / RoomAfterReserve: the model is vacuous")
+    ck.add_mc(w, "MC_JsonAppendBufFromStart(deviation witness)")
     with open(vec, "a") as sink:
         g = vlib.must_hold(vlib.tlc("JsonAppendBuf", "Gen_JsonAppendBuf.cfg", workers=2, sink=sink), "configurations")
     ck.add_mc(g, "Gen_JsonAppendBuf")
